@@ -3,7 +3,7 @@
 usage: try_corr.py GROUP[,GROUP...] [N per op] [seed] [op,op,...]"""
 import sys, os, time
 sys.path.insert(0, os.path.dirname(os.path.abspath(__file__)))
-import corr
+import corr, gen2
 from gen import G
 groups = sys.argv[1].split(",")
 n = int(sys.argv[2]) if len(sys.argv) > 2 else 30
